@@ -18,7 +18,7 @@ STUBS = ["create_lines_from_parameters / create_transformers_from_parameters / c
 ASSUMPTIONS = ["ppc branch data symbolic (r >= 0, x > 0, b <= 0 for transformers), concrete bus numbers / voltage levels / tap presence (they decide line vs trafo vs impedance)",
                "converter scope: pi transformer model, no asymmetric branch data"]
 OUTSIDE = ["MATPOWER .mat files (scipy.io)", "gencost", "gens / ext_grids (bus type logic is structural)", "out-of-service elements, switches"]
-BOUNDS = {"quick": "one branch per instance: line-like, transformer-like (tap on hv), impedance-like (different voltage levels, no tap); bus PD/QD/GS/BS", "thorough": "same"}
+BOUNDS = {"quick": "one branch per instance: line-like, transformer-like (tap ratio above / below nominal, imported as hv-side or lv-side tap changer), impedance-like (different voltage levels, no tap); bus PD/QD/GS/BS", "thorough": "same"}
 _cache = {}
 
 
@@ -39,7 +39,7 @@ def _template():
     return _cache["t"]
 
 
-def make_branch(kind):
+def make_branch(kind, tap_side="hv", tap_range=(1.005, 1.1)):
     def fn(ctx):
         fp = ctx.load("pandapower.converter.pypower.from_ppc")
         bb = ctx.load("pandapower.build_branch")
@@ -58,7 +58,7 @@ def make_branch(kind):
         b = ctx.var("b", 0., 1.) if kind != "trafo" else -ctx.var("b_neg", 0., 0.1)
         rate = ctx.var("rateA", 1., 500.)
         branch[0, BR_R], branch[0, BR_X], branch[0, BR_B], branch[0, RATE_A] = r, x, b, rate
-        tap = ctx.var("tap", 1.005, 1.1) if kind == "trafo" else 0.0
+        tap = ctx.var("tap", *tap_range) if kind == "trafo" else 0.0
         branch[0, TAP] = tap
         ppc_in = {"bus": bus, "branch": branch, "baseMVA": base}
         orig = c02._two_port(ctx, mY, branch[0].copy())
@@ -72,7 +72,7 @@ def make_branch(kind):
         net = copy.deepcopy(_template())
         with patched(fp, create_lines_from_parameters=grab("line"), create_transformers_from_parameters=grab("trafo"),
                      create_impedances=grab("impedance")):
-            fp._from_ppc_branch(net, ppc_in, 50)
+            fp._from_ppc_branch(net, ppc_in, 50, **({"tap_side": tap_side} if tap_side != "hv" else {}))
         want = {"line": "line", "trafo": "trafo", "impedance": "impedance"}[kind]
         ctx.true("converted_to_the_expected_element_type", want in cap and len(cap) >= 1)
         if want not in cap:
@@ -151,6 +151,9 @@ def make_bus():
 
 def instances(tier):
     return [Inst(f"branch_{k}", make_branch(k), nvars=24, samples=3, timeout_ms=60000, raises=(UserWarning,), meta=dict(branch=k)) for k in ("line", "trafo", "impedance")] + \
+           [Inst(f"branch_trafo_tap_{side}_{nm}", make_branch("trafo", side, rng), nvars=24, samples=3, timeout_ms=60000, raises=(UserWarning,),
+                 meta=dict(branch="trafo", tap_side=side, tap=nm))
+            for side, nm, rng in (("hv", "below_nominal", (0.9, 0.995)), ("lv", "above_nominal", (1.005, 1.1)), ("lv", "below_nominal", (0.9, 0.995)))] + \
            [Inst("bus_injections", make_bus(), nvars=16, samples=3, meta=dict(part="bus"))]
 
 
